@@ -1149,6 +1149,10 @@ def run(ctx):
     ctx.cov["correspondence"].update({"relational_cases": len(cases), "relational_failures": rel_bad,
                                       "validated_by_model": len(vlines) if model_ok else 0, "model_vs_python_mismatches": rel_model_mism})
 
+    # ---------------- K (container-encoder tie: Model/XzEncode.lean reassembles the C output) ----------------
+    if model_ok and vidx:
+        run_tie(ctx, exe, mexe, cases, vidx)
+
     # ---------------- K (bound guarantee) ----------------
     blines = gen_bound_cases(ctx)
     b_out, fail = run_parts(exe, blines, [int(b.split()[3]) + 50000 for b in blines])
